@@ -386,8 +386,68 @@ func typeStringFull(t types.Type) string {
 	return types.TypeString(t, func(p *types.Package) string { return p.Path() })
 }
 
+// typeAlias maps a renamed module struct type (package path + "." + new name) to the name it had in the
+// pinned tree: a recorded struct type that is gone and exactly one new struct type of the same package
+// whose fields have, in order, the same types.
+var typeAlias = map[string]string{}
+
+func (p *Prog) resolveTypeRenames() {
+	for _, pk := range p.Pkgs {
+		sc := pk.Types.Scope()
+		prefix := pk.PkgPath + "."
+		var gone []string
+		for k := range fieldTable {
+			if strings.HasPrefix(k, prefix) && !strings.Contains(k[len(prefix):], ".") && sc.Lookup(k[len(prefix):]) == nil {
+				gone = append(gone, k[len(prefix):])
+			}
+		}
+		sort.Strings(gone)
+		for _, old := range gone {
+			rec := fieldTable[prefix+old]
+			var cands []*types.TypeName
+			for _, nm := range sc.Names() {
+				tn, ok := sc.Lookup(nm).(*types.TypeName)
+				if !ok || tn.IsAlias() {
+					continue
+				}
+				if _, known := fieldTable[prefix+nm]; known {
+					continue
+				}
+				st, ok := tn.Type().Underlying().(*types.Struct)
+				if !ok || st.NumFields() != len(rec) {
+					continue
+				}
+				same := true
+				for i := 0; i < st.NumFields(); i++ {
+					// (a field whose type mentions the renamed type itself is spelled with the new name)
+					if strings.ReplaceAll(typeStringFull(st.Field(i).Type()), prefix+nm, prefix+old) != rec[i][1] {
+						same = false
+					}
+				}
+				if same {
+					cands = append(cands, tn)
+				}
+			}
+			if len(cands) != 1 {
+				continue
+			}
+			tn := cands[0]
+			typeAlias[prefix+tn.Name()] = old
+			p.Renamed = append(p.Renamed, fmt.Sprintf("type %s is now %s (the only new struct type with the same field types)", old, tn.Name()))
+			st := tn.Type().Underlying().(*types.Struct)
+			for i := 0; i < st.NumFields(); i++ {
+				if st.Field(i).Name() != rec[i][0] {
+					fieldAlias[st.Field(i)] = rec[i][0]
+					p.Renamed = append(p.Renamed, fmt.Sprintf("field %s.%s is now %s.%s (same position and type)", old, rec[i][0], tn.Name(), st.Field(i).Name()))
+				}
+			}
+		}
+	}
+}
+
 // resolveFields binds fields whose recorded name is gone to the single new field of identical type.
 func (p *Prog) resolveFields() {
+	p.resolveTypeRenames()
 	for _, pk := range p.Pkgs {
 		sc := pk.Types.Scope()
 		for _, nm := range sc.Names() {
